@@ -35,6 +35,7 @@ if ok:
     assert rc == 0, '/repo has uncommitted changes'
     rc, out = sh(f'git apply {patch}', cwd='/repo')
     assert rc == 0, out
+    sh('rm -rf /verif/build/evidence.bak && cp -r /verif/evidence /verif/build/evidence.bak')
     try:
         for c in checks:
             rc, out = sh(f'bin/check {c}', cwd='/verif', timeout=2400)
@@ -45,6 +46,7 @@ if ok:
             print(c, results[c]['summary'], '| first:', results[c]['first'][:140])
     finally:
         sh('git checkout -- .', cwd='/repo')
+        sh('rm -rf /verif/evidence && mv /verif/build/evidence.bak /verif/evidence')  # evidence must come from runs on the unchanged tree
         for f in os.listdir('/verif/replays'):
             if f.endswith('.json'):
                 os.remove(os.path.join('/verif/replays', f))
